@@ -364,6 +364,20 @@ def g_c02(r, tier, env, Ls):
         cs.append(c)
     return cs
 
+def gen_lumix(r, Ls, n):
+    """separate-L/U solvers whose L and U are stored in their own orders (A CSR with L CSC, ...)"""
+    cs = []
+    for _ in range(n):
+        L = r.pick(Ls); csc = r.below(2); nn = r.rng(2, 7); blocks = r.rng(1, 2 * max(L, 1) + 1)
+        kind = r.below(2); cscL = r.below(2); cscU = r.below(2)
+        es = G.gen_pattern(r, nn, density=0.2 + r.unit() * 0.5)
+        c = lu_case(r, kind, L, csc, nn, blocks, es)
+        toks = c.line.split()
+        c.line = " ".join(["lumix", toks[1], toks[2], toks[3], str(cscL), str(cscU)] + toks[4:])
+        c.kind = "lumix"; c.tags += ["mixed_order", "cscA=%d cscL=%d cscU=%d" % (csc, cscL, cscU)]
+        cs.append(c)
+    return cs
+
 def gen_luflat(r, Ls, n):
     cs = []
     for _ in range(n):
@@ -377,11 +391,12 @@ def gen_luflat(r, Ls, n):
     return cs
 
 def g_c03(r, tier, env, Ls):
-    return gen_lu(r, Ls, 250 if tier == "quick" else 4000, 3 if tier == "quick" else 4) + gen_luflat(r, Ls, 120 if tier == "quick" else 2000)
+    return (gen_lu(r, Ls, 250 if tier == "quick" else 4000, 3 if tier == "quick" else 4) + gen_luflat(r, Ls, 120 if tier == "quick" else 2000)
+            + gen_lumix(r, Ls, 100 if tier == "quick" else 1500))
 
 def g_c04(r, tier, env, Ls):
     cs = gen_lu(r, Ls, 300 if tier == "quick" else 4000, 2 if tier == "quick" else 3)
-    return cs + gen_luflat(r, Ls, 120 if tier == "quick" else 2000)
+    return cs + gen_luflat(r, Ls, 120 if tier == "quick" else 2000) + gen_lumix(r, Ls, 150 if tier == "quick" else 2500)
 
 def g_solves(r, tier, env, Ls, n, **kw):
     cs = []
@@ -544,6 +559,13 @@ def g_c06(r, tier, env, Ls):
         if z == 0: p["dt"] = r.logu(1e-20, 1e-15)          # below / around round-off
         elif z == 1: p["dt"] = r.logu(1e-15, 1e-6)
         elif z == 2: p["dt"] = r.logu(1e3, 1e7)
+        if p["integ"] == 1 and r.chance(0.6):
+            # backward Euler with user-chosen (non-dyadic) initial step / reduction factors
+            b = dict(env["be"])
+            if r.chance(0.7): b["h_start"] = p["dt"] * r.pick([0.2, 0.3, 0.45, 0.6, 0.8, r.unit()])
+            if r.chance(0.4): b["time_step_reductions"] = [r.pick([0.5, 0.6, 0.3, 0.1]) for _ in range(5)]
+            if r.chance(0.3): b["max_number_of_steps"] = r.rng(2, 5)
+            p["ptoks"] = G.be_param_tokens(b)
         meta = dict(p); meta["stages"] = env["ros"][p["pname"]]["stages"] if p["pname"] else None
         tags = ["integ=%d" % p["integ"]]
         if p["dt"] < 2.220446049250313e-16: tags.append("dt<round_off")
@@ -889,7 +911,7 @@ def gen_build_case(r, errors=False):
         rxt.append(str(np_))
         for n in ps: rxt += [n, "0", hexd(r.pick([1.0, 0.5, 2.0]))]; used.add(n)
     hasSys = 0 if (errors and r.chance(0.08)) else 1
-    hasRx = 0 if (errors and r.chance(0.08)) else 1
+    hasRx = r.pick([0, 2]) if (errors and r.chance(0.12)) else 1
     ignoreUnused = 1 if not errors else r.below(2)
     reorder = r.below(2)
     line = " ".join(["build", str(hasSys), str(hasRx), str(ignoreUnused), str(reorder)] + sysdecl + rxt)
@@ -912,7 +934,7 @@ def oracle_build(c, out):
     m = c.meta
     exp_err = None
     if not m["hasSys"]: exp_err = "err MICM_Solver_Builder 2"
-    elif not m["hasRx"]: exp_err = "err MICM_Solver_Builder 3"
+    elif m["hasRx"] != 1: exp_err = "err MICM_Solver_Builder 3"
     elif len(m["tol"]) == 0: exp_err = "err MICM_Solver_Builder 4"
     if exp_err:
         return None if out == exp_err else f"expected '{exp_err}', implementation gave '{(out or '')[:80]}'"
@@ -974,6 +996,7 @@ def gen_rates_case(r, Ls):
     L = r.pick(Ls); ncell = r.rng(1, 3 * max(L, 1) + 1); nproc = r.rng(1, 6)
     toks = ["rates", str(L), str(ncell), str(nproc)]
     procs = []
+    procs_full = []
     nlabels = 0
     for i in range(nproc):
         kind = r.below(7)
@@ -984,7 +1007,8 @@ def gen_rates_case(r, Ls):
         elif kind in (1, 2):
             v = [r.logu(1e-32, 1e-28), r.pick([0.0, -1.6, -3.1]), r.pick([0.0, 50.0]), r.logu(1e-13, 1e-10), r.pick([0.0, 0.5]), r.pick([0.0, -20.0]), r.pick([0.6, 0.45]), r.pick([1.0, 1.3])]
         elif kind == 3:
-            toks.append(str(r.below(2)))
+            alk = r.below(2)
+            toks.append(str(alk))
             v = [r.logu(1e-13, 1e-11), r.pick([0.0, 200.0, -150.0]), r.pick([0.1, 0.3, 0.6])]
         elif kind == 4:
             v = [r.logu(1e-13, 1e-10), r.pick([0.0, 500.0]), r.pick([0.0, 1e7, -3e6])]
@@ -997,9 +1021,12 @@ def gen_rates_case(r, Ls):
             v = [r.pick([1.0, 2.0, 0.5, r.unit()])]
             nlabels += 1
         toks += [hexd(x) for x in v]
+        extra = None
         if kind == 3:
-            toks.append(str(r.rng(1, 9)))
+            nn = r.rng(1, 9)
+            toks.append(str(nn)); extra = (alk, nn)
         procs.append((kind, npr))
+        procs_full.append((kind, npr, v, extra))
     conds = []
     for c in range(ncell):
         T = r.logu(150, 350); Pp = r.logu(1.0, 1.1e5)
@@ -1008,7 +1035,7 @@ def gen_rates_case(r, Ls):
     toks += [hexd(x) for x in conds]
     vals = [r.pick([1e-7, 2.5e-8, 1.0, 3.0, 1e9, r.unit()]) for _ in range(ncell * nlabels)]
     toks += [hexd(x) for x in vals]
-    return " ".join(toks), dict(L=L, ncell=ncell, nproc=nproc, procs=procs, nlabels=nlabels)
+    return " ".join(toks), dict(L=L, ncell=ncell, nproc=nproc, procs=procs, nlabels=nlabels, procs_full=procs_full, conds=conds, vals=vals)
 
 def ulp_close(a, b, n=16):
     if a == b or (a != a and b != b): return True
@@ -1023,13 +1050,72 @@ def rates_drift_ok(c, io, mo):
     a, b = di.get("k", []), dm.get("k", [])
     return len(a) == len(b) and all(ulp_close(unhex(x), unhex(y)) for x, y in zip(a, b))
 
+def rates_reference(m):
+    """independent evaluation of the documented formulas (Python floats; same libm)"""
+    import math
+    AV = 6.02214076e23; GAS = 1.380649e-23 * AV
+    out = []
+    for c in range(m["ncell"]):
+        T, P, air = m["conds"][3 * c:3 * c + 3]
+        col = 0
+        row = []
+        for (kind, npr, v, extra) in m["procs_full"]:
+            fixed = 1.0
+            for _ in range(npr): fixed *= air
+            if kind == 0:
+                A, B, C, D, E = v; k = A * math.exp(C / T) * math.pow(T / D, B) * (1.0 + E * P)
+            elif kind in (1, 2):
+                k0A, k0B, k0C, kiA, kiB, kiC, Fc, N = v
+                k0 = k0A * math.exp(k0C / T) * math.pow(T / 300.0, k0B)
+                kinf = kiA * math.exp(kiC / T) * math.pow(T / 300.0, kiB)
+                f = math.pow(Fc, N / (N + math.pow(math.log10(k0 * air / kinf), 2)))
+                k = (k0 * air if kind == 1 else k0) / (1.0 + k0 * air / kinf) * f
+            elif kind == 3:
+                X, Y, a0 = v; alk, n = extra
+                def Af(temp, dens, k0):
+                    a = k0 * dens; b = 0.43 * math.pow(temp / 298.0, -8)
+                    return a / (1.0 + a / b) * math.pow(0.41, 1.0 / (1.0 + math.pow(math.log10(a / b), 2)))
+                k0 = 2.0e-22 * AV * 1.0e-6 * math.exp(n)
+                z = Af(293.0, 2.45e19 / AV * 1.0e6, k0) * (1.0 - a0) / a0
+                pre = X * math.exp(-Y / T); at = Af(T, air, k0)
+                k = pre * (z / (z + at)) if alk else pre * (at / (at + z))
+            elif kind == 4:
+                A, B, C = v; k = A * math.exp(-B / T + C / math.pow(T, 3))
+            elif kind == 5:
+                diff, mw, prob = v
+                radius = m["vals"][c * m["nlabels"] + col]; number = m["vals"][c * m["nlabels"] + col + 1]; col += 2
+                speed = math.sqrt(8.0 * GAS / (math.pi * mw) * T)
+                k = 4.0 * number * math.pi * radius * radius / (radius / diff + 4.0 / (speed * prob))
+            else:
+                k = m["vals"][c * m["nlabels"] + col] * v[0]; col += 1
+            row.append(k * fixed)
+        out += row
+    return out
+
+def oracle_rates(c, out):
+    cmd, d = parse_kv(out or "")
+    if cmd != "rates":
+        return f"CalculateRateConstants outcome '{(out or '')[:80]}'"
+    m = c.meta
+    got = [unhex(v) for v in d.get("k", [])]
+    exp = rates_reference(m)
+    if len(got) != len(exp):
+        return f"{len(got)} rate constants returned, {len(exp)} expected"
+    nproc = m["nproc"]
+    for i, (g, e) in enumerate(zip(got, exp)):
+        if (g != g) and (e != e): continue
+        if abs(g - e) > 1e-9 * max(abs(g), abs(e)) + 1e-300:
+            return (f"rate constant of reaction {i % nproc} in cell {i // nproc} is {g!r}; its own formula with its own parameters and this cell's "
+                    f"conditions gives {e!r} (L={m['L']}, cells={m['ncell']})")
+    return None
+
 def g_c15(r, tier, env, Ls):
     cs = []
     for _ in range(300 if tier == "quick" else 5000):
         line, meta = gen_rates_case(r, Ls)
         tags = ["L=%d" % meta["L"], "labels=%d" % meta["nlabels"]]
         if meta["L"] and meta["ncell"] % meta["L"]: tags.append("partial_group")
-        cs.append(Case(line, meta, "rates", drift_ok=rates_drift_ok, tags=tags, nontrivial=meta["nproc"] > 1))
+        cs.append(Case(line, meta, "rates", oracle=oracle_rates, drift_ok=rates_drift_ok, tags=tags, nontrivial=meta["nproc"] > 1))
     return cs
 
 def g_c17(r, tier, env, Ls):
@@ -1145,6 +1231,12 @@ def oracle_dense(c, out):
         for y in range(m["cols"]):
             if asg[addr[q]] != float(1000 * (x + 1) + y): return f"row assignment wrote element ({x},{y}) to the wrong slot"
             q += 1
+    thr = size // 2 + 0.5
+    mx = set(int(x) for x in d.get("max", [])); mn = set(int(x) for x in d.get("min", []))
+    val = lambda i: (i * 7919) % (size + 1) + 1
+    for a in addr:
+        if (val(a) < thr) != (a in mx): return f"Max did not act correctly on the logical element stored at slot {a}"
+        if (val(a) > thr) != (a in mn): return f"Min did not act correctly on the logical element stored at slot {a}"
     return None
 
 def g_c19(r, tier, env, Ls):
@@ -1153,8 +1245,13 @@ def g_c19(r, tier, env, Ls):
     for n in range(1, nmax + 1):
         for es in G.all_patterns(n, full_diag=False):
             if not es: continue
-            line, meta = gen_sparse_case(r, Ls, n=n, es=es)
-            cs.append(Case(line, meta, "sparse", oracle=oracle_sparse, tags=["exhaustive_n=%d" % n, "L=%d" % meta["L"], "csc" if meta["csc"] else "csr"]))
+            # every ordering policy for every small pattern (n = 4: one random policy per pattern plus a sweep below)
+            cfgs = [(L, csc) for L in Ls for csc in (0, 1)] if n <= 3 else [(r.pick(Ls), r.below(2))]
+            for (L, csc) in cfgs:
+                blocks = r.rng(1, 2 * max(L, 1) + 1)
+                line = " ".join(["sparse", str(n), str(csc), str(L), str(blocks)] + G.pairs_tokens(es))
+                meta = dict(n=n, L=L, csc=csc, blocks=blocks, es=es)
+                cs.append(Case(line, meta, "sparse", oracle=oracle_sparse, tags=["exhaustive_n=%d" % n, "L=%d" % L, "csc" if csc else "csr"]))
     for _ in range(200 if tier == "quick" else 3000):
         line, meta = gen_sparse_case(r, Ls, n=r.rng(4, 8))
         cs.append(Case(line, meta, "sparse", oracle=oracle_sparse, tags=["random", "L=%d" % meta["L"]]))
@@ -1171,7 +1268,8 @@ def g_c20(r, tier, env, Ls):
         line, meta = gen_build_case(r, errors=True)
         tags = ["build"]
         if not meta["hasSys"]: tags.append("missing_system")
-        if not meta["hasRx"]: tags.append("missing_reactions")
+        if meta["hasRx"] == 0: tags.append("missing_reactions")
+        if meta["hasRx"] == 2: tags.append("reactions_reset_to_empty")
         if not meta["tol"]: tags.append("no_species")
         cs.append(Case(line, meta, "build-errors", oracle=oracle_build, tags=tags))
     # empty species list, no reaction names a species, default reordering (used to hang)
